@@ -345,6 +345,70 @@ def null_required_stream(ctx, res):
                         res.violate("C11:required-null-accepted", "a load returned although a required field was given an explicit null (the field has a declared default)", case)
 
 
+def env_required_stream(ctx, res):
+    """required fields bound to an environment variable, with the variable in each of its states (unset, set but empty, set and
+    valid) and a tree that omits the field or gives it: a load / validation that returns means the field has a value; a variable that
+    is set but empty supplies nothing (C14), so it cannot excuse a missing required field — in both error-reporting modes"""
+    import os
+    import cincoconfig as cc
+    var = "CINCO_T_C11_REQ"
+    for binding in ("named", "prefix"):
+        for state in ("unset", "empty", "valid"):
+            for depth in (0, 2):
+                for tree_has in (False, True):
+                    for call in ("load_tree", "json", "validate", "collect"):
+                        os.environ.pop(var, None)
+                        os.environ.pop("CINCO_T_C11_LVL0_LVL1_REQ", None)
+                        name = var if (binding == "named" or depth == 0) else "CINCO_T_C11_LVL0_LVL1_REQ"
+                        s = cc.Schema(env="CINCO_T_C11") if binding == "prefix" else cc.Schema()
+                        holder = s
+                        for lvl in range(depth):
+                            holder = getattr(holder, "lvl%d" % lvl)
+                        holder.req = cc.StringField(required=True, env=var) if binding == "named" else cc.StringField(required=True)
+                        holder.other = cc.IntField(default=1)
+                        if state == "empty":
+                            os.environ[name] = ""
+                        elif state == "valid":
+                            os.environ[name] = "from-env"
+                        try:
+                            cfg = s()
+                            tree = {"other": 2, "req": "from-tree"} if tree_has else {"other": 2}
+                            for lvl in reversed(range(depth)):
+                                tree = {"lvl%d" % lvl: tree}
+                            errors = None
+                            try:
+                                if call == "load_tree":
+                                    cfg.load_tree(tree)
+                                elif call == "json":
+                                    cfg.loads(cc.ConfigFormat.get("json").dumps(cfg, tree), format="json")
+                                elif call == "validate":
+                                    if tree_has:
+                                        cfg.load_tree(tree)
+                                    cfg.validate()
+                                else:
+                                    if tree_has:
+                                        cfg.load_tree(tree)
+                                    errors = cfg.validate(collect_errors=True)
+                                returned = True
+                            except Exception:  # noqa
+                                returned = False
+                            owner = cfg
+                            for lvl in range(depth):
+                                owner = owner._data["lvl%d" % lvl]
+                            held = owner._data.get("req")
+                        finally:
+                            os.environ.pop(name, None)
+                        case = {"stream": "env-required", "binding": binding, "variable": state, "depth": depth, "tree_gives_it": tree_has, "call": call, "held": held}
+                        res.case(stable(case), kind="env-required:%s:%s" % (state, "returned" if returned else "raised"))
+                        missing = held is None or held == ""
+                        if call == "collect":
+                            if returned and missing and not errors:
+                                res.violate("C11:required-unset-accepted", "collecting validation returned no error although a required field has no value", case)
+                        elif returned and missing:
+                            res.violate("C11:required-unset-accepted", "a load / validation returned although a required field has no value "
+                                        "(its environment variable is %s)" % state, case)
+
+
 def multi_validator_stream(ctx, res):
     """several validators registered on one field (constructor argument and decorator, or the decorator twice): a load returns only if
     every one of them was run against the loaded value and passed — at the root, nested, and in items of configuration lists"""
@@ -414,6 +478,7 @@ def run(ctx, n_quick=250, n_thorough=8000):
     guard(res, "C11", empty_item_stream, ctx, res)
     guard(res, "C11", null_required_stream, ctx, res)
     guard(res, "C11", multi_validator_stream, ctx, res)
+    guard(res, "C11", env_required_stream, ctx, res)
     return res
 
 
